@@ -214,11 +214,41 @@ def opening (w h : Nat) (ker : List Int) (ks cy cx : Nat) (plane : List Int) : L
 def closing (w h : Nat) (ker : List Int) (ks cy cx : Nat) (plane : List Int) : List Int :=
   erode w h ker ks cy cx 1 (dilate w h ker ks cy cx 1 plane)
 
-/-- Spec neighbourhood: (qx,qy) is a neighbour of (px,py) iff some non-zero structuring-element entry maps to it -/
+/-- neighbourhood AS CODED: `morph_impl` calls `kernel.at(flip_ker_row, flip_ker_col)` although `at` takes (x, y) =
+    (column, row): the table entry in ROW c, COLUMN r selects the offset (dx, dy) = (cx − c, cy − r), i.e. the
+    structuring element is read transposed (known finding C16-morph-se-transposed) -/
 def isNeighbour (ker : List Int) (ks cy cx : Nat) (px py qx qy : Int) : Bool :=
   (List.range ks).any fun (r : Nat) => (List.range ks).any fun (c : Nat) =>
-    -- entry at(x = r, y = c) = ker[c*ks + r] gives the offset (dx, dy) = (cx − c, cy − r)
     ker.getD (c * ks + r) 0 ≠ 0 && qx == px + ((cx : Int) - (c : Int)) && qy == py + ((cy : Int) - (r : Int))
+
+/-- Spec neighbourhood: the entry in row r, column c of the structuring element selects the neighbour at horizontal
+    offset cx − c and vertical offset cy − r (rows are vertical, columns horizontal; the reflection is immaterial for
+    a symmetric structuring element) -/
+def isNeighbourSpec (ker : List Int) (ks cy cx : Nat) (px py qx qy : Int) : Bool :=
+  (List.range ks).any fun (r : Nat) => (List.range ks).any fun (c : Nat) =>
+    ker.getD (r * ks + c) 0 ≠ 0 && qx == px + ((cx : Int) - (c : Int)) && qy == py + ((cy : Int) - (r : Int))
+
+/-- symmetric structuring element: B = −B about the centre (entry (r,c) ≠ 0 iff entry (2cy−r, 2cx−c) ≠ 0) -/
+def pointSymmetric (ker : List Int) (ks cy cx : Nat) : Bool :=
+  (List.range ks).all fun (r : Nat) => (List.range ks).all fun (c : Nat) =>
+    ker.getD (r * ks + c) 0 == 0 ||
+      (decide (r ≤ 2 * cy) && decide (c ≤ 2 * cx) && decide (2 * cy - r < ks) && decide (2 * cx - c < ks)
+        && ker.getD ((2 * cy - r) * ks + (2 * cx - c)) 0 != 0)
+
+/-- the non-zero pattern is invariant under transposition -/
+def transposeInvariant (ker : List Int) (ks : Nat) : Bool :=
+  (List.range ks).all fun (r : Nat) => (List.range ks).all fun (c : Nat) =>
+    (ker.getD (r * ks + c) 0 == 0) == (ker.getD (c * ks + r) 0 == 0)
+
+/-- Spec of one dilation / erosion step on a plane: max / min over {self} ∪ in-image Spec neighbours -/
+def morphSpec (w h : Nat) (ker : List Int) (ks cy cx : Nat) (dilation : Bool) (p : List Int) : List Int :=
+  let pts := List.range (w * h)
+  pts.map fun (i : Nat) =>
+    let px : Int := (i % w : Nat); let py : Int := (i / w : Nat)
+    pts.foldl (fun acc (j : Nat) =>
+      let qx : Int := (j % w : Nat); let qy : Int := (j / w : Nat)
+      if isNeighbourSpec ker ks cy cx px py qx qy then
+        (if dilation then max acc (p.getD j 0) else min acc (p.getD j 0)) else acc) (p.getD i 0)
 
 /-! abstract erosion / dilation over a list of points and a neighbourhood relation -/
 
